@@ -907,3 +907,7 @@ impl PointerAddress {
         self.network
     }
 }
+
+#[cfg(kani)]
+#[path = "/verif/kani/address.rs"]
+mod verif_kani_address;
